@@ -324,3 +324,34 @@ func H_parse_cost() {
 	}
 	symx.Reach("parsed")
 }
+
+// template mode through the file path: ParseFile on a ".php" file (shebang handling, alternative
+// syntax conversion, TokenizeTemplate, parser) with the window inside a PHP block, inside the HTML
+// part, and inside an alternative-syntax (if: / endif;) construct. The file lives in the virtual
+// file system.
+var phpOpeners = []string{
+	"<?php ",
+	"<?php $a = ",
+	"<p>x</p>\n<?php $a = 1; ?>\n<b>",
+	"<?php $a = 1; ?>",
+	"<p><?php echo ",
+	"<?php if ($a): ?>x<?php endif; ?>\n<?php ",
+	"<?php foreach ($a as $v): ?>",
+	"#!/usr/bin/env origami\n<?php $a = ",
+}
+
+func H_parse_php() {
+	n := symx.Param("n", 1)
+	k := symx.Choose("ctx", len(phpOpeners))
+	src := phpOpeners[k] + symx.String("w", n)
+	root := symx.VRoot()
+	defer symx.VCleanup()
+	symx.VFile(root+"/t.php", src)
+	p := parser.NewParser()
+	vm := runtime.NewVM(p)
+	vm.SetThrowControl(func(acl data.Control) {})
+	data.WriteOutput = func(string) {}
+	prog, ctl := p.ParseFile(root + "/t.php")
+	symx.Reach("parsed")
+	symx.Assert((prog != nil && ctl == nil) || ctl != nil, "php-mode: program-or-diagnostic")
+}
